@@ -56,6 +56,7 @@ func closeSyncFile(f *os.File) error {
 				return err
 			}
 		}
+		verifCrashPoint("close:synced", f.Name())
 		if err := f.Close(); err != nil {
 			if !os.IsNotExist(err) {
 				return err
